@@ -747,6 +747,48 @@ def _always_advances(u, callee, pname, nonterm=None):
     return moves_forward(u, callee, pname, 1, nonterm)
 
 
+def _returns_advanced(u, h, pi):
+    """Every return of h hands back its pointer parameter number pi at least one byte further on: the parameter is only ever
+    stepped forward (++, += positive constant), a positive step dominates every return, and what is returned is the parameter
+    itself or the parameter plus a non-negative constant."""
+    if h.body is None or pi >= len(h.params):
+        return False
+    pd = h.params[pi]['d']
+    cfg = h.cfg()
+    steps = set()
+    for m in cfg.nodes:
+        for ev in node_effects(m):
+            if ev.kind in ('store', 'incdec') and is_ref(ev.lhs) and strip_casts(ev.lhs)['d'] == pd:
+                if ev.kind == 'incdec' and ev.delta > 0:
+                    steps.add(m.id)
+                elif ev.kind == 'store' and ev.node['op'] == '+=' and (const_val(ev.node['r']) or 0) > 0:
+                    steps.add(m.id)
+                else:
+                    return False
+    for x in h.nodes():
+        if x.get('k') == 'un' and x.get('op') == '&' and strip_casts(x['e']).get('k') == 'ref' and strip_casts(x['e'])['d'] == pd:
+            return False
+    rets = cfg.returns()
+    if not rets or not steps:
+        return False
+    for r in rets:
+        if r.expr is None:
+            return False
+        e = strip_casts(r.expr)
+        k = 0
+        if e.get('k') == 'bin' and e['op'] == '+' and const_val(e['r']) is not None:
+            k = const_val(e['r'])
+            e = strip_casts(e['l'])
+        if not (e.get('k') == 'ref' and e['d'] == pd and k >= 0):
+            return False
+        if k == 0 and not guarded_by(cfg, r.id, lambda nn, l: nn.id in steps):
+            # guarded_by works on edges: a step node lies on every path when the return is unreachable once step nodes are removed
+            region = cfg.reachable(cfg.entry.id, stop=steps)
+            if r.id in region:
+                return False
+    return True
+
+
 def _span_of_current_byte(cfg, node, ev):
     r = strip_casts(ev.node['r'])
     if r.get('k') != 'call' or callee_name(r) != 'strspn' or len(r['args']) != 2:
@@ -838,6 +880,16 @@ def bnd6(units, R, functions=None, nonterm=None):
                                     _always_advances(u, callee, callee.params[ai]['n'], nonterm):
                                 progress.add(nid)
                                 steps.append('%s advances %s' % (callee.name, expr_str(a0['e'])))
+                    elif ev.kind == 'store' and ev.node['op'] == '=' and is_ref(ev.lhs) and strip_casts(ev.node['r']).get('k') == 'call' and \
+                            callee_name(strip_casts(ev.node['r'])) in u.functions:
+                        # p = skip(p): a callee that hands its cursor argument back further on, on every path
+                        call_ = strip_casts(ev.node['r'])
+                        callee = u.functions[callee_name(call_)]
+                        for ai, a_ in enumerate(call_['args']):
+                            a0 = strip_casts(a_)
+                            if a0.get('k') == 'ref' and a0['d'] == strip_casts(ev.lhs)['d'] and _returns_advanced(u, callee, ai):
+                                progress.add(nid)
+                                steps.append('%s hands %s back further on' % (callee.name, a0['n']))
                     elif ev.kind == 'store' and ev.node['op'] == '=' and is_ref(ev.lhs):
                         # list walk: x = x->next
                         r = strip_casts(ev.node['r'])
